@@ -104,8 +104,7 @@ class GroupSpec(SeqSpec):
                     ops.append(["quiesce"])
                 ops.append(["release", r])
             ops.append(["await", r, n + 1])
-            if rng.random() < 0.5:
-                ops.append(["quiesce"])
+            ops.append(["quiesce"])
             if rng.random() < 0.3:
                 ops.append(["open", r])
                 ops.append(["await", r, n + 3])
@@ -139,14 +138,14 @@ class GroupSpec(SeqSpec):
                 ops.append(self._stop(True, True))
         elif how == "cancel-race":
             members = [["cancel"], self._stop(True)]
-            g = self._reg(rng.choice(["do", "trigger", "periodic"]), "gate", True)
+            g = self._reg(rng.choice(["do", "trigger"]), "gate", True)
             late.append(g[1])
             members.append(g)
             rng.shuffle(members)
             ops.append(["race", members])
         if how != "none":
             ops.append(["quiesce"])
-            for r in regs:
+            for r in regs + late:
                 if rng.random() < 0.7:
                     ops.append(["open", r])
             ops.append(["quiesce"])
@@ -216,6 +215,7 @@ class GroupSpec(SeqSpec):
                 ops.append(["release", rng.choice(regs)[1]])
             else:
                 ops.append(["quiesce"])
+        ops.append(["quiesce"])      # let every loop settle (parked or held at its gate) before the stop race
         ops += self.gen_ending(rng, [g[1] for g in regs])
         return ops
 
